@@ -6,7 +6,7 @@ ID = "C12"
 LEAN_MODULES = ["Gv.Props.C12"]
 REQUIRED_THEOREMS = ["Gv.Props.C12." + n for n in [
     "trackers_spec", "removed_iff", "site_removed_iff", "ends_mode_removes_maximal_prefix_suffix",
-    "kept_removed_partition", "result_eq_select_kept", "removeCharacterSites_unfold", "wildcard_follows_alphabet",
+    "kept_removed_partition", "result_eq_select_kept", "removeCharacterSites_unfold", "removeMajoritySites_unfold", "wildcard_follows_alphabet",
     # per-sequence variant (RemoveCharacterSeqs / RemoveGapSeqs)
     "seqCounts_spec", "removeCharacterSeqs_never_panics", "seq_removed_iff", "seqs_result_wellformed",
     "gapSeq_removed_iff"]]
